@@ -52,6 +52,9 @@ case "${1:-}" in
       [ -n "$sel" ] && [ "$sel" != "$name" ] && continue
       [ -f "$d/patch.diff" ] || continue
       props=$(python3 -c "import json,sys; m=json.load(open(sys.argv[1])); print(' '.join(m.get('detected_by', [m['property']])))" "$d/meta.json")
+      # a few changes are caught at thorough scale only; their meta.json names the batch size
+      runs=$(python3 -c "import json,sys; m=json.load(open(sys.argv[1])); print(m.get('verif_runs',''))" "$d/meta.json")
+      if [ -n "$runs" ]; then export VERIF_RUNS=$runs; else unset VERIF_RUNS; fi
       if ! git -C $REPO apply "$d/patch.diff"; then echo "$name: patch does not apply"; rc=1; continue; fi
       found=""
       for p in $props; do
